@@ -245,8 +245,77 @@ def r17_4(ctx):
                       "absent-duration literals differ: writer %s reader %s" % (sorted(rl), sorted(pl)))
     # the one-liner writes durations with format_duration too
     f = prog.fn("TestCaseConfig::to_yaml_one_liner")
-    n = len([1 for _, t in f.calls() if mname(t) == "format_duration"])
-    ctx.check(n >= 2, "one-liner-durations", f.where(), "timeout and wait.timeout are written with humantime::format_duration (%d uses)" % n)
+    _one_liner_durations(ctx, prog, f)
+
+
+PURE_KINDS = {"field", "variant", "deref", "ref", "arg", "local", "phi", "cast", "agg"}
+
+
+def _pure(tree):
+    """the value is a stored Duration reached through projections/copies only (no arithmetic, no constructor)"""
+    for n in tree.walk():
+        if n.kind == "call":
+            if method_name(n.a) not in ("Clone::clone", "Deref::deref", "Borrow::borrow", "AsRef::as_ref", "Option::as_ref", "Option::unwrap_or_default"):
+                return False
+        elif n.kind not in PURE_KINDS:
+            return False
+    return True
+
+
+def _which(tree):
+    names = {n.a for n in tree.walk() if n.kind == "field"}
+    if "timeout" not in names:
+        return None
+    return "wait.timeout" if "wait" in names else "timeout"
+
+
+def _one_liner_durations(ctx, prog, f):
+    """both durations reach humantime::format_duration unmodified - directly, through a local closure or a crate-local helper"""
+    from ..interp import Inliner
+    inl = Inliner(prog)
+    o = Origins(f)
+    found, bad = set(), []
+    wrappers = {}
+    for c in prog.closures_of(f):
+        if any(mname(t) == "format_duration" for _, t in c.calls()):
+            wrappers[c.npath] = c
+    for bb, t in f.calls():
+        if mname(t) == "format_duration":
+            tree = o.operand(t["args"][0])
+            w = _which(tree)
+            (found.add(w) if (w and _pure(tree)) else bad.append((f.loc(bb), tree.show()[:100])))
+            continue
+        cb = None
+        if t.get("resolved_local"):
+            cb = prog.body_by_def(t["resolved"], f.crate)
+            if cb is not None and not any(mname(t2) == "format_duration" for _, t2 in cb.calls()):
+                cb = None
+        is_closure_call = mname(t) in ("Fn::call", "FnMut::call_mut", "FnOnce::call_once")
+        if is_closure_call:
+            recv = o.operand(t["args"][0])
+            for n in recv.walk():
+                if n.kind == "agg" and isinstance(n.a, tuple) and str(n.a[0]).startswith("closure "):
+                    cand = prog.body_by_def(n.a[0][len("closure "):], f.crate)
+                    if cand is not None and cand.npath in wrappers:
+                        cb = cand
+        if cb is None:
+            continue
+        # inside the wrapper: the formatted value is a parameter, untouched
+        oc = Origins(cb)
+        for b2, t2 in cb.calls():
+            if mname(t2) == "format_duration":
+                tr = oc.operand(t2["args"][0])
+                if not (_pure(tr) and any(n.kind == "arg" for n in tr.walk())):
+                    bad.append((cb.loc(b2), tr.show()[:100]))
+        for a in t["args"][(1 if is_closure_call else 0):]:
+            tree = o.operand(a)
+            w = _which(tree)
+            if w:
+                (found.add(w) if _pure(tree) else bad.append((f.loc(bb), tree.show()[:100])))
+    ctx.check(not bad, "one-liner-durations-unmodified", f.where(), "durations reach humantime::format_duration as stored (no arithmetic or re-construction on the way)",
+              "a duration is transformed before it is formatted: %s - the one-liner then reads back as a different duration" % bad[:3])
+    ctx.check(found == {"timeout", "wait.timeout"}, "one-liner-durations", f.where(), "timeout and wait.timeout are written with humantime::format_duration",
+              "written with humantime::format_duration: %s (expected timeout and wait.timeout)" % sorted(found))
 
 
 def _str_literals(prog, body):
